@@ -2,6 +2,7 @@ package world
 
 import (
 	"net"
+	"os"
 	"sync"
 	"time"
 )
@@ -14,9 +15,12 @@ type Stall struct {
 	N       int
 	Hit     chan struct{} // closed when the stalled write is parked
 	Release chan struct{} // close to let the stalled write proceed
-	mu      sync.Mutex
-	cnt     int
-	used    bool
+	// EmitFirst: the datagram is handed to the network BEFORE the call blocks (the kernel took it, the call has
+	// not returned yet): a deadline or Close that ends the call then reports an error for a datagram that left.
+	EmitFirst bool
+	mu        sync.Mutex
+	cnt       int
+	used      bool
 	// How the stalled write ended: "released", "timeout", "closed" ("" while parked / never hit).
 	Ended string
 }
@@ -24,6 +28,13 @@ type Stall struct {
 // StallWrite arms a stall on the N-th following WriteTo of c.
 func (c *MemConn) StallWrite(n int) *Stall {
 	s := &Stall{N: n, Hit: make(chan struct{}), Release: make(chan struct{})}
+	c.stall.Store(s)
+	return s
+}
+
+// StallWriteAfterEmit arms a stall on the N-th following WriteTo of c that emits the datagram first.
+func (c *MemConn) StallWriteAfterEmit(n int) *Stall {
+	s := &Stall{N: n, Hit: make(chan struct{}), Release: make(chan struct{}), EmitFirst: true}
 	c.stall.Store(s)
 	return s
 }
@@ -126,7 +137,7 @@ func (c *MemConn) FailNextWrites(n int, err error) {
 // datagram did not leave.
 func (c *MemConn) FailNextWritesAfterSend(n int, err error) {
 	c.mu.Lock()
-	c.lateFailN, c.lateFailErr = n, err
+	c.lateFailN, c.lateFailErr, c.lateZero = n, err, false
 	c.mu.Unlock()
 }
 
@@ -166,5 +177,24 @@ func (TempNetErr) Temporary() bool { return true }
 func (c *MemConn) FailWriteNumber(k int, err error) {
 	c.mu.Lock()
 	c.failSkip, c.failN, c.failErr = k-1, 1, err
+	c.mu.Unlock()
+}
+
+// TimeoutNetErr is what a transport reports when its write (or read) deadline passed: a net.Error with
+// Timeout() == true that also matches os.ErrDeadlineExceeded.
+type TimeoutNetErr struct{}
+
+func (TimeoutNetErr) Error() string   { return "injected: i/o timeout" }
+func (TimeoutNetErr) Timeout() bool   { return true }
+func (TimeoutNetErr) Temporary() bool { return true }
+func (TimeoutNetErr) Is(target error) bool {
+	return target == os.ErrDeadlineExceeded
+}
+
+// FailNextWritesAfterSendZero is FailNextWritesAfterSend with the call reporting 0 bytes written (a transport
+// whose deadline fired between handing the datagram to the kernel and returning).
+func (c *MemConn) FailNextWritesAfterSendZero(n int, err error) {
+	c.mu.Lock()
+	c.lateFailN, c.lateFailErr, c.lateZero = n, err, true
 	c.mu.Unlock()
 }
